@@ -95,3 +95,13 @@ package core
 //@   ensures[wf] fwf(l)
 //@   ensures[detached] old(l.count) > 0 ==> old(l.head).prev == nil && old(l.head).next == nil
 
+
+// ---- request pool: a recycled request is detached and reset; queues that do not contain it are untouched ----
+//@ define mqsame(l) = l.count == old(l.count) && l.head == old(l.head) && l.tail == old(l.tail) && (forall k int :: 0 <= k && k < l.count ==> qnth_local(old(heap(Msg.prev)), heap(Msg.prev), l.head, k) && mq(l, k) == old(mq(l, k)))
+
+//@ func msgPool.Put
+//@   props C01 C03
+//@   modifies m.Id, m.Type, m.Owner, m.Body, m.RspBody, m.Done, m.Error, m.Fd2Slot, m.Keys, m.Frags, m.Frags2, m.FragDoneNumber, m.DelNum, m.prev, m.next
+//@   ensures[reset@C03] m != nil ==> (m.Body == nil && !m.Done && len(m.RspBody) == 0 && m.Owner == nil && m.FragDoneNumber == 0 && m.prev == nil && m.next == nil)
+//@   ensures[others.same] forall l *MsgQueue :: (l != nil && old(mwf(l)) && old(mnotin(l, m))) ==> mqsame(l)
+//@   ensures[others.wf] forall l *MsgQueue :: (l != nil && old(mwf(l)) && old(mnotin(l, m))) ==> mwf(l)
